@@ -10,6 +10,8 @@ for d in sorted(glob.glob('/verif/seeded/C*/m*')):
     caught = [(k, v['violations'][0]) for k, v in cr.items() if isinstance(v, dict) and v.get('exit') == 1 and v.get('violations')]
     if 'apply_error' in cr:
         st, by = 'n/a', 'patch no longer applies (the code it changes was rewritten by a later fix; the must-fail corpus keeps the scenario)'
+        if m.get('ported'):
+            by += f"; ported by hand to the current code as {m['ported']['selftest_entry']}: {m['ported']['result']} by `{m['ported']['obligation'][:150]}`".replace('|', '\\|')
     elif caught:
         k, v = caught[0]
         mo = re.search(r'obligation="(.*)"', v)
@@ -32,7 +34,7 @@ out.append('|--------|--------------|--------|--------------------------|')
 for r in rows:
     out.append(f'| {r[0]} {r[1]} | {r[2]} | {r[3]} | {r[4]} |')
 out.append('')
-out.append('Missed, and why: C01 m1/m3, C02 m1 and C03 m2/m4 change statement-level behaviour of the VM, the interpreter and the\noptimizer (iterator tables, match scoping, optimizer on parser output, switch bodies, dead-code elimination) - outside the\noperator / built-in / kill-condition layer these properties are claimed at; C06 m4 is in the parser (route modifiers are\nnot under contract); C07 m1 is inside the recursive conformance check that the contracts keep abstract. "No longer\napplicable": the patch targets code that a later fix rewrote; each of those scenarios is kept as an entry of the\nmust-fail corpus against the current code (compiled-content-type-exact-match-only, vm-length-counts-bytes,\nvm-substring-bounds-in-bytes, canary-success-status-before-encoding, canary-compiled-table-keyed-by-path,\nparser-depth-reset-per-statement, canary-static-routes-mounted-after-setup, set-update-files-under-other-key).\n')
+out.append('Missed, and why: C01 m1/m3, C02 m1 and C03 m2/m4 change statement-level behaviour of the VM, the interpreter and the\noptimizer (iterator tables, match scoping, optimizer on parser output, switch bodies, dead-code elimination) - outside the\noperator / built-in / kill-condition layer these properties are claimed at; C06 m4 is in the parser (route modifiers are\nnot under contract). "No longer\napplicable": the patch targets code that a later fix rewrote; each of those scenarios is kept as an entry of the\nmust-fail corpus against the current code (compiled-content-type-exact-match-only, vm-length-counts-bytes,\nvm-substring-bounds-in-bytes, canary-success-status-before-encoding, canary-compiled-table-keyed-by-path,\nparser-depth-reset-per-statement, canary-static-routes-mounted-after-setup, set-update-files-under-other-key).\n')
 sec = '\n'.join(out)
 p = '/verif/DESIGN.md'
 s = open(p).read()
